@@ -58,6 +58,33 @@ def fstr(x):
     return str(x.numerator) if x.denominator == 1 else '%d/%d' % (x.numerator, x.denominator)
 
 
+def gauss_rational(x):
+    """exact (re, im) Fractions of a sympy expression built from rationals and I, or None"""
+    import sympy
+    x = sympy.sympify(x)
+    if x.is_Rational:
+        return (Fraction(int(x.p), int(x.q)), Fraction(0))
+    if x.free_symbols or x.has(sympy.zoo, sympy.nan, sympy.oo):
+        return None
+    i = sympy.Symbol('i__')
+    num, den = sympy.fraction(sympy.together(x.subs(sympy.I, i)))
+    try:
+        pn = sympy.Poly(num, i, domain='QQ').rem(sympy.Poly(i**2 + 1, i, domain='QQ'))
+        pd = sympy.Poly(den, i, domain='QQ').rem(sympy.Poly(i**2 + 1, i, domain='QQ'))
+    except Exception:
+        return None
+
+    def ab(p):
+        c = [sympy.Rational(v) for v in p.all_coeffs()]
+        c = [sympy.Integer(0)] * (2 - len(c)) + list(c)
+        return (Fraction(int(c[1].p), int(c[1].q)), Fraction(int(c[0].p), int(c[0].q)))
+    (a, b), (c, d) = ab(pn), ab(pd)
+    n = c * c + d * d
+    if n == 0:
+        return None
+    return ((a * c + b * d) / n, (b * c - a * d) / n)
+
+
 def strip_lean_comments(text):
     text = re.sub(r'/-.*?-/', '', text, flags=re.S)
     text = re.sub(r'--[^\n]*', '', text)
